@@ -260,6 +260,12 @@ def main(tier: str) -> int:
     procs = []
     for hs in ("0", "1", "4242"):
         env = dict(_os.environ, PYTHONHASHSEED=hs, PYTHONPATH=str(C.REPO / "src") + ":" + str(C.VERIF / "harness"))
+        # "every preceding history in the same process" / nothing but the arguments and the seed: the second child first evaluates other
+        # nets with the same wiring, the third runs under another thread setting of the numerical runtime
+        if hs == "1":
+            env["C04_PRELUDE"] = "1"
+        if hs == "4242":
+            env["NUMBA_NUM_THREADS"] = "2"
         procs.append((hs, subprocess.Popen([sys.executable, str(C.VERIF / "harness/c04_child.py"), str(C.VERIF / "harness")], env=env, stdout=subprocess.PIPE, stderr=subprocess.PIPE, text=True)))
     prints = {}
     for hs, pr in procs:
@@ -276,7 +282,8 @@ def main(tier: str) -> int:
         for name in prints[ks[0]]:
             if prints[other][name] != prints[ks[0]][name]:
                 chk.fail("the same seeded fit gives different results in different interpreter processes",
-                         {"estimator": "GeneticProgrammingRegressor", "optimizer": name, "PYTHONHASHSEED": [ks[0], other],
+                         {"estimator": name if name.endswith("Regressor") else "GeneticProgrammingRegressor", "optimizer": name, "PYTHONHASHSEED": [ks[0], other],
+                          "other_process": {"1": "other nets with the same wiring were evaluated first", "4242": "NUMBA_NUM_THREADS=2"}.get(other, ""),
                           "trees": [prints[ks[0]][name]["tree"], prints[other][name]["tree"]], "same_initial_population": prints[other][name]["pop0"] == prints[ks[0]][name]["pop0"]},
                          {"target": "GPRegressor", "clause": "same_seed_processes"})
                 break
